@@ -25,6 +25,14 @@ fn main() {
             let c = checks::by_id(id).unwrap_or_else(|| usage());
             engine::worker_main(&*c);
         }
+        "shrink" => {
+            let path = std::path::PathBuf::from(args.get(2).unwrap_or_else(|| usage()));
+            let text = std::fs::read_to_string(&path).expect("read replay file");
+            let v: serde_json::Value = serde_json::from_str(&text).expect("replay json");
+            let id = v["property"].as_str().expect("property").to_string();
+            let c = checks::by_id(&id).unwrap_or_else(|| usage());
+            std::process::exit(engine::shrink_file(&*c, &path));
+        }
         "replay" => {
             let path = std::path::PathBuf::from(args.get(2).unwrap_or_else(|| usage()));
             let text = std::fs::read_to_string(&path).expect("read replay file");
